@@ -7,7 +7,7 @@ From Coq Require Import List Arith Bool NArith Lia.
 From GV Require Import Base.Result Gen.TokenTypes Gen.Defs Model.Parser Spec.RefTable Spec.Pratt Spec.Chains.
 Import ListNotations.
 
-(* big-step reading of [climb] on bracket-free item lists *)
+(* big-step reading of [climb] *)
 Inductive Climb : N -> option rtree -> list item -> rtree -> list item -> Prop :=
 | C_val q d i r t r' :
     Climb q (Some (RAtom d i)) r t r' -> Climb q None (IValue d i :: r) t r'
